@@ -56,6 +56,11 @@ fn walk(p: &Arc<Prog>, cfg: &shuttle::Config, cap: u64) -> (Vec<Vec<i64>>, bool)
     (out, capped)
 }
 
+pub fn walk_leaves(p: &Prog, cap: u64) -> (Vec<Vec<i64>>, bool) {
+    let prog = Arc::new(p.clone());
+    walk(&prog, &crate::config_for(p), cap)
+}
+
 pub fn dfs_program(p: &Prog, cap: u64) -> (Value, Vec<Value>) {
     let prog = Arc::new(p.clone());
     let base = crate::config_for(p);
